@@ -385,7 +385,7 @@ def run(c):
         lines += graph_lines(models) + ["Q %s %s" % p for p in pairs] + ["A %s" % m["name"] for m in models] + ["V %s" % ",".join(v) for v in vsets]
     got = lib.run_driver(exe, lines) if exe else None
     k = 0
-    mism, oracle_bad, multi = [], [], set()
+    mism, oracle_bad, multi, validate_bad = [], [], set(), []
     kinds = {"P:": 0, "NOPATH": 0, "KEYERR": 0}
     for models, pairs, vsets in cases:
         r, adj, val = real_queries(models, pairs, want_adj=True, validate_sets=vsets)
@@ -398,6 +398,17 @@ def run(c):
                 multi.add(x)
         for pr in oracle_check(models, pairs, r):
             oracle_bad.append({"problem": pr[0], "from": pr[1], "to": pr[2], "graph": models})
+        # property oracle on the implementation's own answers: validation rejects a pair of registered models exactly when the planner has no path for it
+        ans = {p_: r[i_] for i_, p_ in enumerate(pairs)}
+        reg = {m_["name"] for m_ in models}
+        for i, v in enumerate(vsets):
+            vm = [x for x in dict.fromkeys(v) if x in reg]
+            for ai, a_ in enumerate(vm):
+                for b_ in vm[ai + 1:]:
+                    nopath = not ans[(a_, b_)].startswith("P:")
+                    reported = frozenset((a_, b_)) in val[i]
+                    if nopath != reported and len(validate_bad) < 3:
+                        validate_bad.append({"graph": models, "validate_models": v, "pair": [a_, b_], "planner": ans[(a_, b_)], "validation_reports_no_path": reported})
         if got is not None:
             for i, p in enumerate(pairs):
                 if got[k + i] != r[i]:
@@ -420,7 +431,10 @@ def run(c):
                      not mism, "correspondence", json.dumps(mism[:3])[:1500])
     for ob in oracle_bad[:3]:
         c.violation("join path property fails on the implementation: %s (%s -> %s)" % (ob["problem"], ob["from"], ob["to"]), {"kind": "graph", **ob})
-    if mism and not oracle_bad:
+    for vb in validate_bad:
+        c.violation("validation and the planner disagree on %s / %s: the planner answers %s, validation %s" % (
+            vb["pair"][0], vb["pair"][1], vb["planner"], "reports that no join path exists" if vb["validation_reports_no_path"] else "accepts the query"), {"kind": "validate", **vb})
+    if mism and not oracle_bad and not validate_bad:
         c.notes.append("model/implementation disagreement without a property failure on the implementation's own answers: %s" % json.dumps(mism[0])[:600])
     # 3. compile() refuses to cross join disconnected models (generator + validation, end to end)
     evals += compile_rejects(c)
@@ -512,5 +526,12 @@ def replay(path):
         print("\n".join("%s -> %s: %s" % (p[0], p[1], x) for p, x in zip(pairs, res)))
         print("problems:", probs)
         return 1 if probs else 0
+    if r.get("kind") == "validate":
+        a_, b_ = r["pair"]
+        res, _, val = real_queries(r["graph"], [(a_, b_)], validate_sets=[r["validate_models"]])
+        nopath = not res[0].startswith("P:")
+        reported = frozenset((a_, b_)) in val[0]
+        print("planner %s -> %s: %s; validation reports no path: %s" % (a_, b_, res[0], reported))
+        return 1 if nopath != reported else 0
     print(json.dumps(r, indent=1)[:3000])
     return 1
